@@ -19,7 +19,7 @@ RULE = ("BFS over all K-command sequences x cmd.last x responder timing (cmd.rea
         "post-pass: every reachable quiescent state (master done, flush asserted, nothing outstanding, fixed point) must have memory == reference and no leftover beat; "
         "liveness: no cycle with outstanding work under drain")
 
-EV_OUT = 1; EV_PROG = 2
+EV_OUT = 1; EV_PROG = 2; EV_CPEND = 4
 
 
 def bval(baddr, tag):
@@ -156,6 +156,8 @@ class ConvHarness(Harness):
         el = self.resp.eligible(rs[0])
         coop = fl == 1 and rch[0] == 1 and rch[1] == ((el[0],) if el else ())
         if coop and (pend is not None or wq or rq or rs[0]): ev |= EV_OUT
+        # a command that is being offered must be accepted whether or not the master flushes (memory cooperative)
+        if (pend is not None or a is not None) and rch[0] == 1 and rch[1] == ((el[0],) if el else ()): ev |= EV_CPEND
         if prog: ev |= EV_PROG
         return (cmd, bud, wq, rq, ref, rs2), ev
 
@@ -221,7 +223,7 @@ def build(**kw):
     return QHarness(**kw)
 
 
-LIVE = [("outstanding work drains", EV_OUT, EV_PROG)]
+LIVE = [("outstanding work drains", EV_OUT, EV_PROG), ("offered command is accepted", EV_CPEND, EV_PROG)]
 
 
 def configs(tier):
